@@ -123,7 +123,10 @@ func (e *Enc) encodeInstrs(fr *Frame, b *ssa.BasicBlock, st *State) {
 			e.addPanic(fr, st, "panic", "true", "explicit panic", in.Pos())
 			st.reach = "false"
 		case *ssa.Return:
-			if e.dry == 0 {
+			// (also during the dry run of a loop body: a function inlined into the body must return, otherwise the dry run
+			// stops at the first inlined call and misses every later write of the body; the exits recorded for the frame
+			// that owns the loop are dropped again by endDry)
+			{
 				var res *Val
 				if len(in.Results) == 1 {
 					res = e.val(fr, in.Results[0])
